@@ -300,7 +300,40 @@ def cmp_switches(b):
     return out
 
 
+def no_error_after_wire_write(F, R):
+    """shared.rs / sink.rs: once IoRef::encode succeeded the function must not report failure
+    (the bytes are on the wire: 'a send that returns an error leaves no bytes behind')."""
+    n = 0
+    for b in sorted(F.bodies.values(), key=lambda x: x.path):
+        if not re.match(r'^v[35]::(shared|sink)::', b.path):
+            continue
+        if not b.local_ty(0).startswith('std::result::Result<'):
+            continue
+        for bi, t in b.calls_to(IO_ENCODE):
+            r = discr_switch_after_call(b, bi)
+            if r:
+                sb, tg, oth = r
+                ok_t, err_t = tg.get(0, oth), tg.get(1, oth)
+                reg = b.reachable(ok_t, avoid=[err_t] if err_t != ok_t else [])
+            else:
+                # result returned directly or via `?`: the Ok path is everything after the call
+                tb = [x for x, tt in b.calls_to(r'ops::Try>::branch$') if x in b.reachable_after(bi) and op_place(tt['args'][0]) and op_place(tt['args'][0])['l'] == t['dest']['l']]
+                if not tb:
+                    continue
+                r2 = discr_switch_after_call(b, tb[0])
+                if not r2:
+                    continue
+                reg = b.reachable(r2[1].get(0, r2[2]), avoid=[r2[1].get(1, r2[2])])
+            n += 1
+            errs = [x for x, j, s_ in agg_sites(b, r'^std::result::Result$', 'Err') if x in reg and s_['lhs']['l'] == 0]
+            R.ob('C08.validate-before-write', '%s|IoRef::encode-Ok|no-later-error' % b.path, not errs,
+                 'after the packet has been written to the wire the function can still return an error (%s): the caller sees a failed send although the bytes are out' % (
+                     ', '.join(sorted({err_variant(b, s_) for x, j, s_ in agg_sites(b, r'^std::result::Result$', 'Err') if x in errs})) or 'Err'), b.loc(errs[0]) if errs else None)
+    R.floor('C08.validate-before-write', 'shared/sink functions with a matched wire write', n, 6)
+
+
 def run(F, R):
+    no_error_after_wire_write(F, R)
     cg_ok = codec_guard(F, R)
     writers(F, R, cg_ok)
     validate_before_write(F, R)
